@@ -1103,6 +1103,19 @@ theorem step_inv {st : St} (hi : Inv st) (op : Op) : Inv (step st op).1 := by
     have hu' : u ∈ (u.auth.foldl (fun s e => invalidateHost s e.2) st).db.users := by rw [h2]; exact hu
     have hrec := recInv_put_same (u := { u with auth := [] }) h1.recs ⟨u, hu', rfl, rfl⟩
     exact setUser_inv hrec { u with auth := [] } (hi.recs.names u hu)
+  | logout id =>
+    simp only [step]
+    apply withUser_inv hi
+    intro u hu huid
+    simp only [clearAuth]
+    obtain ⟨h1, h2, h3⟩ := clearAuth_fold_inv hi u.auth
+    have hu' : u ∈ (u.auth.foldl (fun s e => invalidateHost s e.2) st).db.users := by rw [h2]; exact hu
+    refine inv_put_weaker h1 hu' rfl rfl ?_
+    intro hh hhh hc
+    rw [checkHostmask_any hhh] at hc ⊢
+    simp only [User.authMatch, List.any_nil, Bool.and_false, Bool.false_or] at hc
+    simp only [Bool.or_eq_true]
+    exact Or.inr hc
   | rename id name =>
     simp only [step]
     apply withUser_inv hi
@@ -1192,6 +1205,23 @@ theorem step_inv {st : St} (hi : Inv st) (op : Op) : Inv (step st op).1 := by
   | lookup s =>
     simp only [step]
     exact getUserId_inv hi s
+  | pruned id kept =>
+    simp only [step]
+    apply withUser_inv hi
+    intro u hu huid
+    split
+    · refine inv_put_weaker hi hu rfl rfl ?_
+      intro hh hhh hc
+      rw [checkHostmask_any hhh] at hc ⊢
+      simp only [Bool.or_eq_true, Bool.and_eq_true] at hc ⊢
+      rcases hc with ⟨h1, h2⟩ | hc
+      · left
+        refine ⟨h1, ?_⟩
+        simp only [User.authMatch, List.any_eq_true] at h2 ⊢
+        obtain ⟨e, he, hm⟩ := h2
+        exact ⟨e, (List.mem_filter.1 he).1, hm⟩
+      · exact Or.inr hc
+    · exact hi
   | order id masks =>
     simp only [step]
     apply withUser_inv hi
@@ -1475,6 +1505,12 @@ theorem revOK_step {st : St} (h : RevOK st.hc) (op : Op) : RevOK (step st op).1.
     apply revOK_withUser h
     intro u
     dsimp only [clearAuth]; (refine revOK_setUser ?_ _; exact revOK_fold h u.auth)
+  | logout id =>
+    simp only [step]
+    apply revOK_withUser h
+    intro u
+    dsimp only [clearAuth]
+    exact revOK_fold h u.auth
   | rename id name =>
     simp only [step]
     apply revOK_withUser h
@@ -1529,6 +1565,13 @@ theorem revOK_step {st : St} (h : RevOK st.hc) (op : Op) : RevOK (step st op).1.
   | lookup s =>
     simp only [step]
     exact revOK_getUserId h s
+  | pruned id kept =>
+    simp only [step]
+    apply revOK_withUser h
+    intro u
+    split
+    · exact h
+    · exact h
   | order id masks =>
     simp only [step]
     apply revOK_withUser h
